@@ -202,30 +202,30 @@ theorem inv_step {hasStorage : Addr → Bool} (hdb : DbOk db hasStorage) {r r' :
   | loadDelegated a =>
     simp only [step, Option.map_eq_some_iff] at hs
     obtain ⟨⟨js', e, c, d⟩, h1, rfl⟩ := hs
-    obtain ⟨es, p⟩ := loadAccountDelegated_pushes (db := db) h1
+    obtain ⟨⟨es, p⟩, _⟩ := loadAccountDelegated_pushes (db := db) h1
     exact h.of_pushes p
   | initLoad a ks => simp [admissible] at hadm
   | touch a =>
     simp only [step, Option.map_eq_some_iff] at hs
     obtain ⟨js', h1, rfl⟩ := hs
-    obtain ⟨es, p⟩ := touch_pushes (db := db) h1
+    obtain ⟨es, p, _⟩ := touch_pushes (db := db) h1
     exact h.of_pushes p
   | transfer f t v =>
     simp only [step, Option.map_eq_some_iff] at hs
     obtain ⟨⟨js', e⟩, h1, rfl⟩ := hs
-    obtain ⟨es, p⟩ := transfer_pushes (db := db) h.bal h1
+    obtain ⟨⟨es, p⟩, _⟩ := transfer_pushes (db := db) h.bal h1
     exact h.of_pushes p
   | incNonce a =>
     simp only [step, Option.map_eq_some_iff] at hs
     obtain ⟨⟨js', e⟩, h1, rfl⟩ := hs
-    obtain ⟨es, p⟩ := incNonce_pushes (db := db) h1
+    obtain ⟨es, p, _⟩ := incNonce_pushes (db := db) h1
     exact h.of_pushes p
   | setCode a hash =>
     simp only [step, Option.map_eq_some_iff] at hs
     obtain ⟨js', h1, rfl⟩ := hs
     have hk : ∀ acc, r.js.state a = some acc → acc.info.codeHash = KECCAK_EMPTY := by
       intro acc hacc; simp [admissible, hacc] at hadm; exact hadm
-    obtain ⟨es, p⟩ := setCode_pushes (db := db) hk h1
+    obtain ⟨es, p, _⟩ := setCode_pushes (db := db) hk h1
     exact h.of_pushes p
   | sload a k =>
     simp only [step, Option.map_eq_some_iff] at hs
@@ -240,7 +240,7 @@ theorem inv_step {hasStorage : Addr → Bool} (hdb : DbOk db hasStorage) {r r' :
   | tstore a k v =>
     simp only [step, Option.map_eq_some_iff] at hs
     obtain ⟨js', h1, rfl⟩ := hs
-    obtain ⟨es, p⟩ := tstore_pushes (db := db) h1
+    obtain ⟨es, p, _⟩ := tstore_pushes (db := db) h1
     exact h.of_pushes p
   | log l =>
     simp [step] at hs; subst hs
@@ -279,7 +279,7 @@ theorem inv_step {hasStorage : Addr → Bool} (hdb : DbOk db hasStorage) {r r' :
         exact h.of_pushes hp
       | ok cp =>
         simp [hc] at hs; subst hs
-        obtain ⟨rfl, es, p⟩ := hp
+        obtain ⟨rfl, es, p, _⟩ := hp
         exact (h.checkpoint).of_pushes p
   | checkpoint =>
     simp [step] at hs; subst hs
@@ -402,7 +402,7 @@ theorem inv_init {hasStorage : Addr → Bool} (hdb : DbOk db hasStorage) {rpre r
       | error e => simp [hc] at hs; subst hs; exact absurd hcp (fun h => noCp _ rfl h)
       | ok cp' =>
         simp [hc] at hs; subst hs
-        obtain ⟨rfl, es, p⟩ := hp
+        obtain ⟨rfl, es, p, _⟩ := hp
         simp at hcp; subst hcp
         exact ⟨rfl, base.of_pushes p⟩
   | _ =>
